@@ -9,6 +9,7 @@ import (
 	"fmt"
 	"io"
 	"slices"
+	"strings"
 	"testing"
 	"testing/cryptotest"
 
@@ -53,6 +54,9 @@ type ScriptPlan struct {
 	// its last bytes together with the end of stream.
 	Interleave  int  `json:"interleave,omitempty"`
 	ErrWithData bool `json:"err_with_data,omitempty"`
+	// GreaseNamesBadKey (C08): the GREASE extension names the config id and a
+	// suite of a key whose private key does not parse.
+	GreaseNamesBadKey bool `json:"grease_names_bad_key,omitempty"`
 	// AlertWriteFails (refused hellos): writes to the client fail.
 	AlertWriteFails bool `json:"alert_write_fails,omitempty"`
 	// Prime: before the connection under test the process serves a connection
@@ -182,13 +186,16 @@ func buildScript(seed uint64, p *ScriptPlan) (*built, error) {
 		h := echbox.GenHello(r, echbox.GenOpts{SNI: p.InnerSNI, ALPN: p.InnerALPN, TLS13: p.TLS13, NoVersions: p.NoVersions, Extra: p.ExtraOut, MaxData: p.MaxData, GREASE: r.IntN(2) == 0, SIDLen: []int{0, 32, 7}[r.IntN(3)]})
 		if p.Grease {
 			e := &echbox.ECHOuter{KDF: 1, AEAD: uint16(1 + r.IntN(3)), ConfigID: byte(r.IntN(256)), Enc: core.Bytes(r, 32), Payload: core.Bytes(r, 100+r.IntN(200))}
-			if len(p.Keys) > 0 && r.IntN(2) == 0 {
+			if len(p.Keys) > 0 && (r.IntN(2) == 0 || p.GreaseNamesBadKey) {
 				// GREASE that collides with a held config id (of a key the library
 				// can use: what it does with a hello that names a key of a KEM it
 				// does not implement is a configuration matter, not judged here)
 				for _, k := range p.Keys {
-					if !k.OtherKEM {
+					if !k.OtherKEM && (!k.BadPriv || p.GreaseNamesBadKey) {
 						e.ConfigID = k.ID
+						if p.GreaseNamesBadKey {
+							e.KDF, e.AEAD = k.Suites[0].KDF, k.Suites[0].AEAD
+						}
 						break
 					}
 				}
@@ -453,7 +460,16 @@ func buildScript(seed uint64, p *ScriptPlan) (*built, error) {
 			if len(p.Target.PublicName) > 200 {
 				outer.Exts[i] = echbox.SNIExt("other.example")
 			}
-			if m.A%3 == 2 {
+			if m.A%4 == 3 {
+				// a look-alike of the public name: one letter replaced by a code
+				// point that only case FOLDING maps onto it (KELVIN SIGN, LONG S)
+				name := p.Target.PublicName
+				if i := strings.IndexAny(name, "ks"); i >= 0 {
+					rep := map[byte]string{'k': "\u212a", 's': "\u017f"}[name[i]]
+					outer.Exts[i0(outer)] = echbox.SNIExt(name[:i] + rep + name[i+1:])
+				}
+			}
+			if m.A%3 == 2 && m.A%4 != 3 {
 				// the outer hello names nobody: no server_name extension at all
 				outer.Exts = slices.Delete(outer.Exts, i, i+1)
 				if i < pair.EchIdx {
@@ -1170,3 +1186,5 @@ func innerEdge(inner *echbox.Hello, a int) {
 		set(echbox.ExtECH, bodies[(a/8)%len(bodies)])
 	}
 }
+
+func i0(h *echbox.Hello) int { return h.Find(echbox.ExtSNI) }
